@@ -167,7 +167,16 @@ def gcd(ra1, dec1, ra2, dec2):
         * np.cos(np.radians(dec2)) \
         * np.sin(np.radians(dlon) / 2) ** 2
     sep = np.degrees(2 * np.arcsin(np.minimum(1, np.sqrt(a))))
-    return sep
+    # arcsin is ill-conditioned near 1: for separations beyond 90 degrees
+    # measure the (smaller) distance to the antipode of the second point
+    b = np.sin(np.radians(dec1 + dec2) / 2) ** 2
+    b += np.cos(np.radians(dec1)) \
+        * np.cos(np.radians(dec2)) \
+        * np.cos(np.radians(dlon) / 2) ** 2
+    far = 180 - np.degrees(2 * np.arcsin(np.minimum(1, np.sqrt(b))))
+    if np.ndim(a) == 0:
+        return far if a > 0.5 else sep
+    return np.where(a > 0.5, far, sep)
 
 
 def bear(ra1, dec1, ra2, dec2):
